@@ -56,6 +56,8 @@ type Ctx struct {
 	funDecls  []string
 	constGlobalsUsed []string
 	structIDs map[string]int
+	handUnfolded map[string]bool
+	abstractMul  bool
 }
 
 func NewCtx(mode Mode, specs *SpecEnv) *Ctx {
@@ -385,6 +387,14 @@ func (c *Ctx) binop(op string, t types.Type, x, y string, ty types.Type) string 
 		case "-":
 			return fmt.Sprintf("(bvsub %s %s)", x, y)
 		case "*":
+			if c.abstractMul {
+				// `abstract mul`: multiplication as an uninterpreted function (sound for validity; equal
+				// products of equal operands stay equal without bit-blasting two multipliers)
+				n := fmt.Sprintf("umul_%d", w)
+				bv := fmt.Sprintf("(_ BitVec %d)", w)
+				c.declareFun(n, []string{bv, bv}, bv)
+				return fmt.Sprintf("(%s %s %s)", n, x, y)
+			}
 			return fmt.Sprintf("(bvmul %s %s)", x, y)
 		case "/":
 			if signed {
